@@ -2,7 +2,7 @@
 """Dev tool (never run by a check): record the currently failing obligations of
 one rule as known findings.  usage: mkknown.py PID RULE 'what fails' ['witness']
        mkknown.py --fixed PID COMMIT 'what failed'"""
-import json, sys
+import json, os, sys
 sys.path.insert(0, '/verif')
 from sa import core
 import importlib
@@ -16,7 +16,7 @@ else:
     witness = sys.argv[4] if len(sys.argv) > 4 else ''
     only = sys.argv[5] if len(sys.argv) > 5 else None
     repo = core.Repo()
-    chk = core.Check(pid, 'quick', repo)
+    chk = core.Check(pid, os.environ.get('VERIF_TIER', 'quick'), repo)
     importlib.import_module(f'rules.{pid.lower()}').run(chk)
     have = {(k['property'], k.get('key')) for k in data['findings']}
     n = 0
